@@ -1,4 +1,5 @@
 import TvCore.Props.C14
+import TvCore.Props.LinksWorld
 #print axioms TV.C14.delay_in_range
 #print axioms TV.C14.fixed_latency
 #print axioms TV.C14.healthy_send_scheduled
@@ -7,3 +8,19 @@ import TvCore.Props.C14
 #print axioms TV.C14.window
 #print axioms TV.C14.fifo
 #print axioms TV.C14.fstep_link
+#print axioms TV.LW.step_link
+#print axioms TV.LW.step_frame
+#print axioms TV.LW.turnStep_out
+#print axioms TV.LW.clockOK_run
+#print axioms TV.LW.idsOK_init
+#print axioms TV.LW.fifo_init
+#print axioms TV.LinksWorld.send_scheduled
+#print axioms TV.LinksWorld.matured_run
+#print axioms TV.LinksWorld.run_now
+#print axioms TV.LinksWorld.not_delivered_early
+#print axioms TV.LinksWorld.matures_at_tick
+#print axioms TV.LinksWorld.waits_until_handed
+#print axioms TV.LinksWorld.handed_at_turn
+#print axioms TV.LinksWorld.healthy_delivered_in_window
+#print axioms TV.LinksWorld.never_duplicated
+#print axioms TV.LinksWorld.equal_latency_fifo
